@@ -55,6 +55,14 @@ class _Sink(object):
         self.got.append(dictionary)
 
 
+# supported (non-deprecated) API calls by the label the interpreter gives them -> the function name that must be behind the label
+# (the camelCase aliases share labels with their replacements and are deprecated)
+STRICT_CALLS = {"log_message": "log_message", "Action.log": "log", "start_action": "start_action", "start_task": "start_task",
+                "write_traceback": "write_traceback", "write_traceback(exc_info=)": "write_traceback", "MessageType.log": "log",
+                "Action.finish": "finish", "add_success_fields": "add_success_fields", "Action.finish inside its own context()": "finish",
+                "continue_task": "continue_task", "serialize_task_id": "serialize_task_id", "preserve_context": "preserve_context"}
+
+
 class _TeeLogger(object):
     """An application-defined ILogger: counts what passes through, forwards to the production logger and returns a (truthy) value;
     ILogger.write's return value is unspecified and must not matter to anybody."""
@@ -81,6 +89,7 @@ class Interp(object):
         self.after_api = None  # called after every eliot API call that returned (C11 acknowledgements)
         self._stdlib = None
         self.tb_without_exception = False
+        self.strict_warnings = False
         self.cross_thread = False  # part of the action blocks are entered and run on another thread than the one that created the Action
         self.stdlib_tb = False  # part of the traceback nodes go through logging.Logger.error(exc_info=...) and eliot.stdlib.EliotHandler
         self.before_msg = None  # hooks around every message-logging node: mark = before_msg(); ...; after_msg(mark)
@@ -146,7 +155,13 @@ class Interp(object):
         self.api_calls += 1
         try:
             with warnings.catch_warnings():
-                warnings.simplefilter("ignore")
+                # deprecated entry points warn by design; with strict_warnings the process runs with warnings turned into errors
+                # (python -W error, pytest's filterwarnings=error) and every supported, non-deprecated call must still return
+                if self.strict_warnings and what in STRICT_CALLS and getattr(fn, "__name__", "") == STRICT_CALLS[what]:
+                    warnings.simplefilter("error")
+                    self.counters["api calls with warnings as errors"] = self.counters.get("api calls with warnings as errors", 0) + 1
+                else:
+                    warnings.simplefilter("ignore")
                 r = fn(*a, **kw)
             if self.after_api is not None:
                 self.after_api()
@@ -754,12 +769,13 @@ class Interp(object):
         else:
             holder = {}
 
-            def f(a, b=None):
+            def f(a, b=None, **kw):
                 action = current_action()
                 holder["action"] = action
                 if action is None or action is cur:
                     self.viol("preserve_context callable did not run in a new action (node %s)" % node["nid"])
                 holder["args"] = (a, b)
+                holder["kw"] = kw
                 try:
                     self._body(node, gt, action)
                 except BaseException as e:
@@ -779,11 +795,11 @@ class Interp(object):
                 call_args = ()
             else:
                 class _Callable(object):
-                    def __call__(self, a, b=None):
-                        return f(a, b)
+                    def __call__(self, a, b=None, **kw):
+                        return f(a, b, **kw)
 
-                    def method(self, a, b=None):
-                        return f(a, b)
+                    def method(self, a, b=None, **kw):
+                        return f(a, b, **kw)
                 passed = _Callable() if ckind == "instance" else _Callable().method
             ok, g = self.api("preserve_context", preserve_context, passed)
             if not ok:
@@ -798,7 +814,15 @@ class Interp(object):
                 out = None
                 res = None
                 try:
-                    res = g(*call_args, b=2)
+                    # keyword arguments may have any name, also names the library uses for its own parameters
+                    extra = {}
+                    if isinstance(node["nid"], int) and node["nid"] % 3 == 0:
+                        extra = {"f": "a keyword argument named f", "task_id": 7, "args": 1}
+                        if ckind in ("function", "partial"):
+                            extra["self"] = "a keyword argument named self"
+                    res = g(*call_args, b=2, **extra)
+                    if out is None and holder.get("kw") != extra:
+                        self.viol("preserved callable received keyword arguments %r, called with %r" % (holder.get("kw"), extra))
                 except BaseException as e:
                     out = e
                 if out is not holder.get("exc"):
